@@ -76,6 +76,8 @@ pub struct Broker {
     pub ping_delay: Option<u64>,
     pub ping_delays: Vec<Option<u64>>,
     pub pings_seen: usize,
+    /// a scripted broker left a PINGREQ of the current connection unanswered
+    pub ping_unanswered: bool,
     /// number of Deliver steps skipped because they would violate conformance
     pub skipped: u32,
 }
@@ -104,6 +106,7 @@ impl Broker {
             ping_delay: None,
             ping_delays: Vec::new(),
             pings_seen: 0,
+            ping_unanswered: false,
             skipped: 0,
         }
     }
@@ -118,6 +121,7 @@ impl Broker {
         self.connect_seen = None;
         self.connack_sent = false;
         self.client_disconnected = false;
+        self.ping_unanswered = false;
     }
 
     pub fn queue(&mut self, tr: &mut Transport, packet: Option<Packet>, bytes: Vec<u8>, at: Option<u64>) {
@@ -243,6 +247,8 @@ impl Broker {
                     self.queue(tr, Some(Packet::PingResp), bytes, Some(clock::now() + d));
                 } else if auto {
                     self.send(tr, Packet::PingResp);
+                } else {
+                    self.ping_unanswered = true;
                 }
             }
             Packet::Disconnect { .. } => self.client_disconnected = true,
@@ -524,6 +530,7 @@ impl Broker {
                 true
             }
             BrokerAct::PingResp => {
+                self.ping_unanswered = false;
                 self.send(tr, Packet::PingResp);
                 true
             }
@@ -1203,6 +1210,10 @@ fn do_step(w: &mut World, tr: &Tr, conn: &mut Connection<'_, '_, SimIo>, at: (us
             w.broker.mode = *mode;
             if *mode == BrokerMode::AutoAck {
                 // a responsive broker also answers what it had left unanswered so far
+                if w.broker.ping_unanswered {
+                    w.broker.ping_unanswered = false;
+                    w.broker.act(&mut tr.borrow_mut(), &BrokerAct::PingResp);
+                }
                 w.broker.act(&mut tr.borrow_mut(), &BrokerAct::AckAll { reverse: false });
                 w.broker.release_all(&mut tr.borrow_mut());
                 w.broker.resend_inflight(&mut tr.borrow_mut());
